@@ -208,8 +208,9 @@ class Operation(ABC):
                 backed_grad = np.array(backed_grad, copy=False)
 
             if self.where is not True:
-                # (the product of 0-d arrays is a numpy scalar: keep the gradient an ndarray)
-                backed_grad = np.asarray(backed_grad * self.where)
+                # Masked-out entries receive no gradient, whatever the backward rule
+                # produced there (e.g. inf or nan outside of the op's domain).
+                backed_grad = np.where(self.where, backed_grad, 0)
 
             backed_grad = self.grad_post_process_fn(backed_grad, var.shape)
             assert backed_grad.shape == var.shape, (backed_grad.shape, var.shape)
